@@ -288,6 +288,37 @@ impl Sys {
         Ok(rounds)
     }
 
+    /// FLUSH one shard after the other (the FLUSH command and `flush_all` start all
+    /// shards at once; with the blocking pool in play the interleaving of several
+    /// concurrently flushing shards is timing dependent, which product-mode checks
+    /// with committed expected digests cannot tolerate).
+    pub async fn flush_sequential(&self) -> Vec<(usize, String)> {
+        use snel_db::engine::shard::message::ShardMessage;
+        let mut errs = Vec::new();
+        for shard in &self.sm.shards {
+            let (tx, rx) = tokio::sync::oneshot::channel();
+            if let Err(e) = shard.tx.send(ShardMessage::Flush { registry: Arc::clone(&self.registry), completion: tx }).await {
+                errs.push((shard.id, e.to_string()));
+                continue;
+            }
+            match rx.await {
+                Ok(Ok(())) => {}
+                Ok(Err(e)) => errs.push((shard.id, e)),
+                Err(_) => errs.push((shard.id, "flush completion dropped".into())),
+            }
+            self.barrier().await;
+        }
+        errs
+    }
+
+    /// graceful shutdown with the shards flushed one after the other
+    pub async fn shutdown_sequential(&self) -> Vec<(usize, String)> {
+        let mut errs = self.flush_sequential().await;
+        errs.extend(self.sm.shutdown_all().await);
+        self.barrier().await;
+        errs
+    }
+
     /// What `start_all` does on ctrl-c.
     pub async fn shutdown(&self) -> Vec<(usize, String)> {
         let mut errs = self.sm.flush_all(Arc::clone(&self.registry)).await;
